@@ -194,9 +194,9 @@ pub fn run(ctx: &mut Ctx) {
     let quick = ctx.quick();
     // every prefix of every history up to the depth, well-behaved and hostile alphabets
     let mut p = P18 { max_clients: 2, hostile: false };
-    hist::dfs(ctx, &mut p, if quick { 7 } else { 9 }, 3, "C18", 8);
+    hist::dfs(ctx, &mut p, if quick { 8 } else { 10 }, 3, "C18", 8);
     let mut p = P18 { max_clients: 2, hostile: true };
-    hist::dfs(ctx, &mut p, if quick { 6 } else { 8 }, 3, "C18", 8);
+    hist::dfs(ctx, &mut p, if quick { 7 } else { 9 }, 3, "C18", 8);
     // random: C08-like histories of random length with 4 clients
     let n = ctx.budget(6_000, 300_000) / ctx.nshards;
     let mut p = P18 { max_clients: 4, hostile: true };
@@ -217,6 +217,28 @@ pub fn run(ctx: &mut Ctx) {
             ctx.rep.violation(&format!("C18:{}", k), d, hist::history_json(&acts, vec![]));
             if ctx.rep.violations_total > 20 {
                 return;
+            }
+        }
+        // differential around the capacity boundary: a registered, unsignalled kill switch must not
+        // change who is accepted, refused, yielded or answered
+        if i % 8 == 1 {
+            let mut cacts: Vec<Act> = Vec::new();
+            let k = rng.range(9, 12);
+            for c in 0..k {
+                cacts.push(Act::Connect(c));
+                cacts.push(Act::Poll);
+                if rng.chance(1, 3) {
+                    cacts.push(Act::Send(c, Piece::Get));
+                }
+            }
+            for _ in 0..rng.range(2, 6) {
+                cacts.push(Act::Poll);
+            }
+            if let Some((k, d)) = differential(ctx, &cacts) {
+                ctx.rep.count("differential_pairs_at_capacity");
+                ctx.rep.violation(&format!("C18:{}", k), d, hist::history_json(&cacts, vec![("family", J::s("differential"))]));
+            } else {
+                ctx.rep.count("differential_pairs_at_capacity");
             }
         }
         // differential on a shorter well-behaved variant
